@@ -6,6 +6,8 @@ T5 list arms, T6 pinned snapshot, G model guards (decorator semantics the tables
 """
 from __future__ import annotations
 
+import ast
+
 from .. import ctx, snapshot
 from ..layout import AREA_TABLES, merge_intervals
 from ..project import AnalysisError
@@ -32,12 +34,29 @@ def check(run, project):
     t4(run, L)
     t5(run, L)
     t6(run, project, L, facets=None)
+    t7(run, project, L)
     run.floor("T1", 4 * 100, "table entries")
     run.floor("T3", 20, "list fields")
     run.floor("T4", 20, "union fields")
     run.floor("T6", 700, "pinned types")
     run.cover(types=len(L.all), structure_types=len(L.struct_types), area_types=len(L.area_types),
               table_entries=sum(len(t.items) for t in L.tables.values()))
+
+
+def t7(run, project, L, rule="T7"):
+    """the table of all types holds one type per name: the package collects every class object visible in a layout module
+    whose name is upper case, by object - a second class object of the same name (a filtered copy of an enum kept in a
+    module-level variable) becomes a second entry, and lookups by name (`--type`, the type search) then pick either"""
+    mod = project.modules.get("tpmstream.spec.structures")
+    for name, modname, bound in L.duplicate_types:
+        m = project.modules.get(modname)
+        node = next((s_ for s_ in (m.tree.body if m else []) if isinstance(s_, ast.Assign) and any(
+            isinstance(t_, ast.Name) and t_.id == bound for t_ in s_.targets)), None)
+        run.ob(rule, False, f"{name} is one type", f"module {modname.rsplit('.', 1)[-1]} binds a second class object named {name} to "
+               f"`{bound}` at module level: the package's table of all types collects it as another type called {name} (types are "
+               "collected by object from every layout module), so name-based lookups and the type search see two types of one name",
+               module=m or mod, node=node or (m.tree if m else None), func="<module>", construct=f"duplicate type {name} ({bound})")
+    run.ob(rule, True, f"{len(L.struct_types)} structure types, one per name ({len(L.duplicate_types)} duplicates)")
 
 
 # ------------------------------------------------------------------------------ T1
